@@ -77,6 +77,10 @@ def body(c):
         "a GenFail (vnacal_new_* refusing fully specified standards) ends the "
         "episode and is reported against C01, not C07",
     ]
+    if stats.get("gave_up"):
+        c.assumptions.append(
+            "%d driver shard(s) stopped after 40 crashes: part of the planned "
+            "cases was not executed in this run" % stats["gave_up"])
 
 
 def main(argv):
